@@ -3,7 +3,7 @@ import collections
 import copy
 import logging
 
-from common import Failure, Outcome, Broken
+from common import capped, Failure, Outcome, Broken
 from gen import pick
 import itertools
 from sched.scheduler import Scheduler, SchedLock, SharedDict, Stuck, instrument_locks, _REAL_LOCK, _REAL_RLOCK
@@ -86,7 +86,7 @@ class World:
         pol = getattr(self.st, 'policies', None)
         if isinstance(pol, dict):
             return dict(dict.items(pol))
-        return {p.uid: p for p in self.st.retrieve_all()}
+        return {p.uid: p for p in capped(self.st.retrieve_all())}
 
     @staticmethod
     def _apply(state, m):
